@@ -294,6 +294,58 @@ def eval_basis_abs(spec, points, coeff_override=None):
     return out
 
 
+def eval_basis_abs_grad(spec, points):
+    """Upper bound of sum_axis |d phi_mu / d axis| (no cancellations).
+
+    |d/dx [P exp(-a r^2)]| <= (|dP/dx|_abs + 2 a |x| |P|_abs) exp(-a r^2)
+    """
+    points = np.asarray(points, dtype=float)
+    funcs = function_list(spec)
+    out = np.zeros((len(funcs), len(points)))
+    for ifn, fn in enumerate(funcs):
+        delta = np.abs(points - fn["center"])
+        radial = np.exp(-np.outer(fn["exponents"], (delta**2).sum(axis=1)))
+        weights = np.abs(fn["weights"])
+        pabs = np.zeros(len(points))
+        dpabs = np.zeros(len(points))
+        for mono, coef in fn["poly"].items():
+            term = abs(coef) * delta[:, 0] ** mono[0] * delta[:, 1] ** mono[1] * delta[:, 2] ** mono[2]
+            pabs += term
+            for axis in range(3):
+                if mono[axis] > 0:
+                    low = list(mono)
+                    low[axis] -= 1
+                    dpabs += (
+                        abs(coef) * mono[axis]
+                        * delta[:, 0] ** low[0] * delta[:, 1] ** low[1] * delta[:, 2] ** low[2]
+                    )
+        lin = delta.sum(axis=1)
+        out[ifn] = (weights @ radial) * dpabs + ((weights * 2 * fn["exponents"]) @ radial) * lin * pabs
+    return out
+
+
+def eval_basis_abs_exp(spec, points, exp_rel, exp_abs):
+    """Upper bound of the change of phi_mu when every exponent is off by exp_rel*a + exp_abs.
+
+    d/da [N(a) P exp(-a r^2)] = ((2l+3)/(4a) - r^2) N(a) P exp(-a r^2)
+    """
+    points = np.asarray(points, dtype=float)
+    funcs = function_list(spec)
+    out = np.zeros((len(funcs), len(points)))
+    for ifn, fn in enumerate(funcs):
+        delta = np.abs(points - fn["center"])
+        r2 = (delta**2).sum(axis=1)
+        exps = fn["exponents"]
+        radial = np.exp(-np.outer(exps, r2))
+        dalpha = exp_rel * exps + exp_abs
+        factor = dalpha[:, None] * ((2 * fn["ell"] + 3) / (4 * exps)[:, None] + r2[None, :])
+        pabs = np.zeros(len(points))
+        for mono, coef in fn["poly"].items():
+            pabs += abs(coef) * delta[:, 0] ** mono[0] * delta[:, 1] ** mono[1] * delta[:, 2] ** mono[2]
+        out[ifn] = (np.abs(fn["weights"])[:, None] * radial * factor).sum(axis=0) * pabs
+    return out
+
+
 def eval_orbitals(spec, coeffs, points):
     """Orbital values: (norb, npoint) for coefficient matrix (nbasis, norb)."""
     return np.asarray(coeffs).T @ eval_basis(spec, points)
